@@ -77,7 +77,7 @@ mut("c08-outcross-global-shuffle", "C08", "pybrops/core/random/sampling.py", "  
 mut("c08-revert-pymoo-seed", "C08", "pybrops/opt/algo/NSGA2RealGeneticAlgorithm.py", "            copy_termination = False,\n            seed = int.from_bytes(self.rng.bytes(4), \"little\")", "            copy_termination = False", "reverts fix af96815d for one optimiser")
 mut("c08-seed-from-global", "C08", "pybrops/opt/algo/IntegerGeneticAlgorithm.py", "seed = int.from_bytes(self.rng.bytes(4), \"little\")", "seed = int(numpy.random.randint(0, 2**31-1))", "pymoo seed taken from the global stream instead of self.rng")
 mut("c08-revert-selprot-rng", "C08", "pybrops/breed/prot/sel/SubsetSelectionProtocol.py", "                xconfig_decn = sosoln.soln_decn[0],\n                rng = self.rng", "                xconfig_decn = sosoln.soln_decn[0],\n                rng = None", "reverts fix 49bba688 at one site")
-mut("c08-hc-time-tiebreak", "C08", "pybrops/opt/algo/SteepestDescentSubsetHillClimber.py", "        gbest_soln = self.rng.choice(prob.decn_space, prob.ndecn)", "        import time\n        gbest_soln = self.rng.choice(prob.decn_space, prob.ndecn)\n        if int(time.time()) % 2: gbest_soln = gbest_soln[::-1].copy()", "start solution order depends on the wall clock")
+mut("c08-hc-time-tiebreak", "C08", "pybrops/opt/algo/SteepestDescentSubsetHillClimber.py", "        gbest_soln = self.rng.choice(prob.decn_space, prob.ndecn, replace = False)", "        import time\n        gbest_soln = self.rng.choice(prob.decn_space, prob.ndecn, replace = False)\n        if int(time.time()) % 2: gbest_soln = gbest_soln[::-1].copy()", "start solution order depends on the wall clock")
 mut("c08-xconfig-cache", "C08", "pybrops/breed/prot/sel/cfg/SubsetSelectionConfiguration.py", "        outcross_shuffle(out, rng = self.rng)", "        outcross_shuffle(out, rng = self.rng if len(out) != 3 else None)", "three-cross configurations shuffled with the global stream")
 
 # ---------------------------------------------------------------- C16
